@@ -322,6 +322,19 @@ pub fn run(or: &Oracles, prop: &str, max_windows: u64) -> WorldOutcome {
                             Ok(Ok(())) => accepted.push((*s, *ck, *t)),
                             Ok(Err(e)) => {
                                 let oob = e.contains("SlotOutOfBounds");
+                                // a valid certificate for an undecided slot may only be refused as a
+                                // duplicate of one the pool already holds (same slot and type; for
+                                // notar-fallback also the same block)
+                                let already = held.get(&(*s, *ck)).is_some_and(|tags| *ck != CK::NotarFallback || tags.contains(t));
+                                if or.c08 && !oob && e.contains("Duplicate") && !already {
+                                    kernel::violation(
+                                        "C08",
+                                        "bounds:new-certificate-refused-as-duplicate",
+                                        format!("add_cert({ck:?}, slot {s}, block tag {t}) returned {e} although the pool holds no {ck:?} certificate for that slot{} (held there: {:?}; step {step})",
+                                            if *ck == CK::NotarFallback { " and block" } else { "" },
+                                            held.iter().filter(|((sl, _), _)| sl == s).collect::<Vec<_>>()),
+                                    );
+                                }
                                 if or.c08 && oob != (*s < wm_before) {
                                     kernel::violation(
                                         "C08",
